@@ -43,7 +43,9 @@ PROP = "C18"
 LEVEL = "proof"
 LEAN = {"module": "Pygom.Props.C18",
         "required": ["Pygom.C18.box_bounds_rows", "Pygom.C18.fit_in_box_partial", "Pygom.C18.fit_contract_partial", "Pygom.C18.fit_at_truth_partial",
-                     "Pygom.C18.fit_at_truth_of_zero_residual", "Pygom.C18.box_bounds_C_counterexample", "Pygom.C18.grad_zero_at_truth"]}
+                     "Pygom.C18.fit_at_truth_of_zero_residual", "Pygom.C18.box_bounds_C_counterexample", "Pygom.C18.grad_zero_at_truth",
+                     "Pygom.C18.prepBounds_ok", "Pygom.C18.fit_contract_all_forms_partial", "Pygom.C18.fit_lower_only_partial",
+                     "Pygom.C18.fit_unbounded_partial", "Pygom.C18.fit_at_truth_all_forms_partial", "Pygom.C18.fit_rejects_bad_lengths"]}
 BUDGET = {"quick": {"fits": 130, "random": 20, "malformed": 14, "intbox": 24},
           "thorough": {"fits": 2400, "random": 320, "malformed": 120, "intbox": 300}}
 RULE = ("real fit(x, lb, ub) on pygom.common_models SIR_norm / SIR / SIS / SEIR / Lotka_Volterra / SIR_Birth_Death and random closed "
